@@ -88,3 +88,11 @@ claim("C09",
        "'A peer that sends at least every N seconds is never probed or disconnected' depends on arrival times and is NOT decided.",
   note="Trusted: go/ssa; context cancellation; errgroup; the utils.Timer shape rules shared with C08.",
   design_ref="DESIGN.md §3 C09, §2 E10")
+
+claim("C04",
+  technique="static ownership / who-may-call analysis over go/ssa: sole-reader census, loop-carried buffer dataflow (phi edges of the read loop), producer/consumer census of the hand-off channels, no-spawn check of the dispatch path, freshness of per-connection objects",
+  text="All partitions of the byte stream are covered through one contract: the socket is read only by bufio.Reader.ReadBytes(SOH) on one reader per connection. Decided structurally: bytes read are always appended to a local buffer or the accumulated message is handed off and the buffer re-bound to a fresh allocation; "
+       "the hand-off test is a start-anchored comparison with the CheckSum tag; each hand-off channel has one producer and one consumer goroutine; each dequeued message is written with one net.Conn.Write; no goroutine is spawned on the dispatch path; "
+       "each accepted socket gets its own Conn, handler and channels. Timing and custom net.Conn implementations are not decided.",
+  note="Trusted: go/ssa; bufio.Reader.ReadBytes contract (returns data up to and including the delimiter regardless of chunking); Go channel FIFO semantics.",
+  design_ref="DESIGN.md §3 C04, §2 E3/E4")
